@@ -295,7 +295,7 @@ package board
 //@   views roundtrip
 //@   split b.SquaresToPiece[m.From()] in 1..6
 //@   split b.SquaresToPiece[b.CaptureSq(m)] in 0..6
-//@   requires repOK(b) && lightPos(pos(b)) && movable(pos(b), uint16(m)) && len(b.hashes) >= 1 && 0 <= b.FiftyCnt
+//@   requires repOK(b) && lightPos(pos(b)) && movable(pos(b), uint16(m)) && len(b.hashes) >= 1
 //@   use repInstance(b, m.From())
 //@   use repInstance(b, m.To())
 //@   use repInstance(b, b.CaptureSq(m))
